@@ -271,6 +271,7 @@ def validate_query(metrics: list[str], dimensions: list[str], graph: "SemanticGr
 
     # Validate dimension references
     for dim_ref in dimensions:
+        granularity = None
         # Handle granularity suffix
         if "__" in dim_ref:
             dim_ref_base, granularity = dim_ref.rsplit("__", 1)
@@ -289,6 +290,11 @@ def validate_query(metrics: list[str], dimensions: list[str], graph: "SemanticGr
                 errors.append(f"Model '{model_name}' not found (referenced in '{dim_ref}')")
             elif not model.get_dimension(dim_name):
                 errors.append(f"Dimension '{dim_name}' not found in model '{model_name}' (referenced in '{dim_ref}')")
+            elif granularity is not None and model.get_dimension(dim_name).type != "time":
+                errors.append(
+                    f"Time granularity '{granularity}' cannot be applied to non-time dimension "
+                    f"'{dim_name}' in model '{model_name}'"
+                )
         else:
             errors.append(f"Dimension reference '{dim_ref}' must be in 'model.dimension' format")
 
